@@ -27,15 +27,15 @@ import (
 // ---------------------------------------------------------------- proxy
 
 type Frame struct {
-	Dir    string `json:"dir"` // "c2s" | "s2c"
-	Type   string `json:"type"`
-	Chunk  string `json:"chunk"`
-	Size   int    `json:"size"`
-	ChanID uint32 `json:"chan"`
-	Token  uint32 `json:"token"`
-	Seq    uint32 `json:"seq"`
-	ReqID  uint32 `json:"req"`
-	Parsed bool   `json:"parsed"`
+	Dir    string  `json:"dir"` // "c2s" | "s2c"
+	Type   string  `json:"type"`
+	Chunk  string  `json:"chunk"`
+	Size   int     `json:"size"`
+	ChanID uint32  `json:"chan"`
+	Token  uint32  `json:"token"`
+	Seq    uint32  `json:"seq"`
+	ReqID  uint32  `json:"req"`
+	Parsed bool    `json:"parsed"`
 	AtMS   float64 `json:"at_ms"`
 }
 
